@@ -42,6 +42,13 @@ def run(ctx):
                     raise vlib.Infra('C09 %s %s: %s' % (curve, b, pb))
                 ctx.report('%s circuit=%s round trips %s: %s' % (b['backend'], b['circuit'], ','.join(rts) or 'none', re.sub(r'\d+', 'N', pb)[:160]),
                            {'curve': curve, 'pipeline': b, 'problem': pb})
+    # a constraint system whose encoding holds arrays / maps with more than 2^17 entries
+    for rr in ctx.harness(['c09big', '--curve', 'bn254'], timeout=1800):
+        ctx.case(key='big constraint system', nontrivial=True)
+        for pb in rr['problems'] or []:
+            if pb.startswith('INFRA'):
+                raise vlib.Infra('C09 big: ' + pb)
+            ctx.report('large constraint system: %s' % re.sub(r'\d+', 'N', pb)[:160], {'problem': pb})
     ctx.extra['pipelines'] = len(sel)
     ctx.sample(sel[0])
     ctx.sample(sel[-1])
